@@ -75,6 +75,8 @@ def run(F, rep, tier):
     calendar_tables_rule(F, rep)
     date_validity_rule(F, rep)
     offset_rule(F, rep)
+    components_rule(F, rep)
+    instants_rule(F, rep)
     # ---------------- comparison core (shared with C09)
     from props import c09
     c09.temporal_order_rule(F, rep)
@@ -101,151 +103,396 @@ def unit_constants_rule(F, rep):
     rep.floor(r1, "unit constants", n, 6)
 
 
-def calendar_tables_rule(F, rep):
-    r2 = rep.rule("R15.2", "last_day_of_month is the Gregorian table (31/30 days, February 28 or 29 by is_leap_year) and is_leap_year is divisible by 4 and (not by 100 or by 400)")
-    # ---------------- R15.2
-    lm = F.hir.get(T + "date::last_day_of_month")
-    if lm is None:
-        rep.missing_anchor(r2, T + "date::last_day_of_month")
-    else:
-        table, feb, other = {}, None, None
-        for m, _ in find_hir(lm["body"], lambda x: x.get("k") == "Match" and x.get("src") == "Normal"):
-            for arm in m["arms"]:
-                months = []
+def fns_named(F, simple, prefix="dmntk_feel::"):
+    """functions of that simple name anywhere below the prefix (a function may move between modules)"""
+    return sorted(n for n, h in F.hir.items() if n.startswith(prefix) and n.split("::")[-1] == simple and h.get("kind") in ("fn", "method", "assoc_fn", None) and "body" in h and "::{closure" not in n)
 
-                def pat(p):
-                    if p.get("k") == "Or":
-                        for q in p["ps"]:
-                            pat(q)
-                    elif p.get("k") == "Lit" and isinstance(p.get("v"), int):
-                        months.append(p["v"])
-                    elif p.get("k") == "Range" and isinstance(p.get("lo", {}).get("v"), int) and isinstance(p.get("hi", {}).get("v"), int):
-                        months.extend(range(p["lo"]["v"], p["hi"]["v"] + (1 if p.get("end") == "Included" else 0)))
-                pat(arm["p"])
-                b = strip(arm["b"])
-                val = None
-                if b.get("k") == "Call" and (b.get("callee") or "").endswith("Option::Some") and b.get("args"):
-                    a = strip(b["args"][0])
-                    if a.get("k") == "Lit":
-                        val = a.get("v")
-                    elif a.get("k") == "If":
-                        c = strip(a["c"])
-                        t, e = strip(a["then"]), strip(a.get("else", {}))
-                        tv = strip(t["b"]["e"]).get("v") if t.get("k") == "Block" and t["b"].get("e") else t.get("v")
-                        evv = strip(e["b"]["e"]).get("v") if e.get("k") == "Block" and e["b"].get("e") else e.get("v")
-                        val = ("leap", (c.get("callee") or "").split("::")[-1], tv, evv)
-                if not months and arm["p"].get("k") in ("Wild", "Bind"):
-                    other = "none" if (b.get("k") == "Path" and (b.get("path") or "").endswith("Option::None")) else "some"
-                for mo in months:
-                    table[mo] = val
-        probs = []
-        for mo, days in MONTH_LENGTHS.items():
-            if table.get(mo) != days:
-                probs.append("month %d has %s days" % (mo, table.get(mo)))
-        if table.get(2) != ("leap", "is_leap_year", 29, 28):
-            probs.append("February is %s, expected 29 days when is_leap_year(year) else 28" % (table.get(2),))
-        if sorted(table) != list(range(1, 13)):
-            probs.append("months covered: %s" % sorted(table))
-        if other != "none":
-            probs.append("a month outside 1..12 does not yield None")
+
+def fold(F, name, args, hook=None, inline=None):
+    """outcomes [(conds, value)] of the function on abstract / enumerated arguments, None when the evaluator gives up"""
+    from hireval import Evaluator, TooManyPaths
+    ev = Evaluator(F, call_hook=hook, ints=True, inline=inline or set(), max_paths=2000)
+    try:
+        return ev.run_fn(name, args), ev
+    except (TooManyPaths, ValueError, KeyError, RecursionError):
+        return None, ev
+
+
+def single(outs):
+    """the one concrete outcome of a folded call, or None"""
+    if not outs:
+        return None
+    vals = {repr(v) for _, v in outs}
+    return outs[0][1] if len(vals) == 1 else None
+
+
+def opt_int(v):
+    """Some(k) -> k, None -> 'none', anything else -> None"""
+    if v is None:
+        return None
+    if v[0] == "v" and v[1] == "None":
+        return "none"
+    if v[0] == "v" and v[1] == "Some" and v[2] and v[2][0][0] == "lit" and isinstance(v[2][0][1], int):
+        return v[2][0][1]
+    return None
+
+
+def calendar_tables_rule(F, rep):
+    r2 = rep.rule("R15.2", "last_day_of_month folds to the Gregorian table for every month number 0..255 (31/30 days, February 29 when is_leap_year else 28, None outside 1..12); "
+                           "is_leap_year folds to `divisible by 4 and (not by 100 or by 400)` on every residue class of the year modulo 400, both signs")
+    # ---------------- R15.2: table extraction by folding the function on each element of its finite (u8) / periodic (mod 400) domain
+    lms = fns_named(F, "last_day_of_month")
+    if not lms:
+        rep.missing_anchor(r2, "a function last_day_of_month in dmntk_feel")
+    for lm in lms:
+        h = F.hir[lm]
+        probs, und = [], []
+        for leap in (True, False):
+            def hook(callee, args, s, leap=leap):
+                if (callee or "").split("::")[-1] == "is_leap_year":
+                    return ("bool", leap)
+                return None
+            for m in range(0, 256):
+                outs, _ = fold(F, lm, [("sym", "year"), ("lit", m)], hook)
+                got = opt_int(single(outs))
+                want = MONTH_LENGTHS.get(m, (29 if leap else 28) if m == 2 else "none")
+                if got is None:
+                    und.append(m)
+                elif got != want:
+                    probs.append("month %d%s has %s days (calendar: %s)" % (m, " of a leap year" if m == 2 and leap else "", got, want))
+        key = "month-lengths" if len(lms) == 1 else "month-lengths:%s" % lm
         if probs:
-            rep.violation(r2, "month-lengths", "; ".join(probs), "%s:%s" % (lm["file"], lm["line"]))
+            rep.violation(r2, key, "; ".join(probs[:4]), "%s:%s" % (h["file"], h["line"]))
+        elif und:
+            rep.undecided(r2, key, "%s does not fold to a constant for month(s) %s" % (lm, und[:5]))
         else:
-            rep.ok(r2, "month-lengths", "12 months, February by is_leap_year, None otherwise")
-    ly = F.hir.get(T + "date::is_leap_year")
-    if ly is None:
-        rep.missing_anchor(r2, T + "date::is_leap_year")
-    else:
-        params = [p.get("name") for p in ly.get("params", [])]
-        got = canon(ly["body"], params)
-        want = {"(((p0%100)!=0)||((p0%400)==0))&&((p0%4)==0)", "(((p0%4)==0)&&(((p0%100)!=0)||((p0%400)==0)))", "(((p0%100)!=0)||((p0%400)==0)&&((p0%4)==0))"}
-        norm = got.replace(" ", "")
-        # canonical ordering puts the smaller string first; accept the two orders of the conjunction
-        ok = norm in {"(((p0%4)==0)&&(((p0%100)!=0)||((p0%400)==0)))", "((((p0%100)!=0)||((p0%400)==0))&&((p0%4)==0))"} or norm in want
-        if ok:
-            rep.ok(r2, "leap-year", "year % 4 == 0 && (year % 100 != 0 || year % 400 == 0)")
+            rep.ok(r2, key, "256 month numbers x leap / common year folded: 12 months, February by is_leap_year, None otherwise")
+    lys = fns_named(F, "is_leap_year")
+    if not lys:
+        rep.missing_anchor(r2, "a function is_leap_year in dmntk_feel")
+    for ly in lys:
+        h = F.hir[ly]
+        # congruence abstraction: the Gregorian rule and every `year % k` with k | 400 are constant on (sign, |year| mod 400) classes; the function may
+        # use the year only as the left operand of such remainders (checked), so folding one representative per class decides all years
+        uses_ok = True
+        pname = (h.get("params") or [{}])[0].get("name")
+        for x, par in find_hir(h["body"], lambda x: x.get("k") == "Path" and x.get("res") == "local" and x.get("name") == pname):
+            q = [y for y in par if y.get("k") not in ("Cast", "AddrOf", "Block")]
+            parent = q[-1] if q else {}
+            div = const_eval(F, parent.get("b", {})) if parent.get("k") == "Binary" and parent.get("op") == "%" else \
+                (const_eval(F, parent["args"][0]) if parent.get("k") == "MethodCall" and parent.get("method") in ("rem", "rem_euclid") and parent.get("args") else None)
+            if not (isinstance(div, int) and div > 0 and 400 % div == 0):
+                uses_ok = False
+        probs, und = [], []
+        if uses_ok:
+            for y in range(-399, 400):
+                outs, _ = fold(F, ly, [("lit", y)])
+                got = single(outs)
+                want = (y % 4 == 0) and (y % 100 != 0 or y % 400 == 0)
+                if got is None or got[0] != "bool":
+                    und.append(y)
+                elif got[1] != want:
+                    probs.append("years = %d (mod 400) are %sleap years" % (y, "" if got[1] else "not "))
+        key = "leap-year" if len(lys) == 1 else "leap-year:%s" % ly
+        if probs:
+            rep.violation(r2, key, "%s: %s; the Gregorian rule is year %% 4 == 0 && (year %% 100 != 0 || year %% 400 == 0)" % (ly, "; ".join(probs[:4])), "%s:%s" % (h["file"], h["line"]))
+        elif und or not uses_ok:
+            rep.undecided(r2, key, "%s %s" % (ly, "uses the year other than in `year % k` with k dividing 400" if not uses_ok else "does not fold to a boolean for residues %s" % und[:5]))
         else:
-            rep.violation(r2, "leap-year", "is_leap_year computes %s; the Gregorian rule is year %% 4 == 0 && (year %% 100 != 0 || year %% 400 == 0)" % got, "%s:%s" % (ly["file"], ly["line"]))
+            rep.ok(r2, key, "799 residue classes (sign, |year| mod 400) folded: year % 4 == 0 && (year % 100 != 0 || year % 400 == 0)")
+
+
+def compared_only(F, h, pname):
+    """the parameter is used only as an operand of comparisons with constants, in match scrutinees / tuples, in range tests or as a call argument -
+    then the function is constant on the cells cut out by those constants and one representative per cell decides it"""
+    for x, par in find_hir(h["body"], lambda x: x.get("k") == "Path" and x.get("res") == "local" and x.get("name") == pname):
+        q = [y for y in par if y.get("k") not in ("Cast", "AddrOf", "Block") and not (y.get("k") == "Unary" and y.get("op") == "*")]
+        parent = q[-1] if q else {}
+        k = parent.get("k")
+        if k == "Binary" and parent.get("op") in ("<", "<=", ">", ">=", "==", "!="):
+            other = parent["b"] if find_hir(parent["a"], lambda y: y is x) else parent["a"]
+            if const_eval(F, other) is None and not (strip(other).get("k") == "Path" and strip(other).get("res") == "local"):
+                return False
+        elif k in ("Tup", "Match", "Call", "MethodCall", "Let", "If"):
+            continue
+        else:
+            return False
+    return True
 
 
 def date_validity_rule(F, rep):
-    r3 = rep.rule("R15.3", "date validity: the fallback range of years is -999999999..999999999 and the day is compared with the month's last day")
+    r3 = rep.rule("R15.3", "date validity beyond chrono's range: years -999999999..999999999 and day <= last day of the month (is_valid_date folded on one representative per cell)")
     # ---------------- R15.3
-    vd = F.hir.get(T + "date::is_valid_date")
-    if vd is None:
-        rep.missing_anchor(r3, T + "date::is_valid_date")
-    else:
-        lits = sorted({const_eval(F, x) for x, _ in find_hir(vd["body"], lambda x: x.get("k") in ("Lit", "Unary")) if isinstance(const_eval(F, x), int) and abs(const_eval(F, x)) > 10 ** 6})
-        if lits == [-999999999, 999999999]:
-            rep.ok(r3, "year-range", "years -999999999 ..= 999999999")
+    for vd in fns_named(F, "is_valid_date") or [None]:
+        if vd is None:
+            rep.missing_anchor(r3, "a function is_valid_date in dmntk_feel")
+            break
+        h = F.hir[vd]
+        params = [p.get("name") for p in h.get("params", [])]
+        if len(params) != 3 or not all(compared_only(F, h, p) for p in params):
+            rep.undecided(r3, "date-validity", "%s uses its parameters in arithmetic; the cell abstraction does not apply" % vd)
+            continue
+        probs, und = [], 0
+        for last in (28, 29, 30, 31, None):
+            def hook(callee, args, s, last=last):
+                n = (callee or "").split("::")[-1]
+                if n == "try_from" or n == "try_into":
+                    return ("v", "Err", [("sym", "out-of-chrono-range")])
+                if n == "last_day_of_month":
+                    return ("v", "Some", [("lit", last)]) if last is not None else ("v", "None", [])
+                return None
+            for y in (-2 ** 31, -1000000000, -999999999, 0, 999999999, 1000000000, 2 ** 31 - 1):
+                for d in (0, 1, 27, 28, 29, 30, 31, 32, 255):
+                    outs, _ = fold(F, vd, [("lit", y), ("sym", "month"), ("lit", d)], hook)
+                    got = single(outs)
+                    want = last is not None and -999999999 <= y <= 999999999 and d <= last
+                    if got is None or got[0] != "bool":
+                        und += 1
+                    elif got[1] != want:
+                        probs.append("year %d, day %d of a month with %s days is %s" % (y, d, last if last is not None else "no", "valid" if got[1] else "not valid"))
+        if probs:
+            rep.violation(r3, "date-validity", "%s: %s (the FEEL year range is -999999999..999999999 and a day is valid up to the month's last day)" % (vd, "; ".join(probs[:3])), "%s:%s" % (h["file"], h["line"]))
+        elif und:
+            rep.undecided(r3, "date-validity", "%s does not fold to a boolean on %d representative(s)" % (vd, und))
         else:
-            rep.violation(r3, "year-range", "is_valid_date bounds the year by %s, the FEEL range is -999999999..999999999" % lits, "%s:%s" % (vd["file"], vd["line"]))
-        cmpd = [x for x, _ in find_hir(vd["body"], lambda x: x.get("k") == "Binary" and x.get("op") in ("<=", "<", ">", ">=") and "last_day_of_month" in json.dumps(x) or
-                                       (x.get("k") == "Binary" and x.get("op") in ("<=",) and strip(x["a"]).get("name") == "day"))]
-        days = [x for x in cmpd if strip(x["a"]).get("name") == "day" and x.get("op") == "<="]
-        if days:
-            rep.ok(r3, "day-bound", "day <= last day of the month")
-        else:
-            rep.violation(r3, "day-bound", "is_valid_date does not compare the day with the month's last day by `day <= last_day_of_month`", "%s:%s" % (vd["file"], vd["line"]))
+            rep.ok(r3, "date-validity", "7 year cells x 9 days x 5 month lengths folded")
 
 
 def offset_rule(F, rep):
-    r4 = rep.rule("R15.4", "a UTC offset literal denotes sign * (3600*hours + 60*minutes + seconds): the sign applies to the whole sum; the text form prints the magnitude of minutes and seconds")
-    # ---------------- R15.4: UTC offsets
-    fz = F.hir.get(T + "zone::FeelZone::from_captures")
-    if fz is None:
-        rep.missing_anchor(r4, T + "zone::FeelZone::from_captures")
-    else:
-        def names_canon(e):
-            e = strip(e)
-            k = e.get("k")
-            if k == "Lit":
-                return str(e.get("v"))
-            if k == "Path":
-                return e.get("name") or (e.get("path") or "?").split("::")[-1]
-            if k == "Binary":
-                a, b, op = names_canon(e["a"]), names_canon(e["b"]), e["op"]
-                if op in ("+", "*") and b < a:
+    r4 = rep.rule("R15.4", "a UTC offset literal denotes sign * (3600*hours + 60*minutes + seconds), the sign applying to the whole sum, and is accepted only for hours <= 14 "
+                           "(from_captures folded symbolically); the text form prints minutes and seconds from the magnitude")
+    # ---------------- R15.4: UTC offsets, read
+    cands = fns_named(F, "from_captures", T)
+    if not cands:
+        rep.missing_anchor(r4, "FeelZone::from_captures")
+    for name in cands:
+        h = F.hir[name]
+        some = lambda x: ("v", "Some", [x])
+        none = ("v", "None", [])
+        groups = {"offHours": "h", "offMinutes": "m", "offSeconds": "s"}
+
+        def hook(callee, args, st):
+            c = callee or ""
+            last = c.split("::")[-1]
+            if last == "name" and "Captures" in c and len(args) == 2 and args[1][0] == "lit":
+                g = args[1][1]
+                if g in ("offSign", "offHours", "offMinutes"):
+                    return some(("sym", "m:" + g))
+                if g == "offSeconds":
+                    return [(("secs", True), some(("sym", "m:" + g))), (("secs", False), none)]
+                return none
+            if last == "parse" and args and args[0][0] == "sym" and args[0][1].startswith("m:") and args[0][1][2:] in groups:
+                return ("v", "Ok", [("sym", groups[args[0][1][2:]])])
+            if last in ("eq", "ne") and len(args) == 2:
+                a, b = args
+                if b[0] == "sym":
                     a, b = b, a
-                return "(%s%s%s)" % (a, op, b)
-            if k == "Unary":
-                return "(%s%s)" % (e["op"], names_canon(e["a"]))
-            if k in ("Cast",):
-                return names_canon(e["e"])
-            return k
-        inits = [(st["p"]["name"], names_canon(st["e"]), st.get("l")) for st, _ in find_hir(fz["body"], lambda x: x.get("k") == "LetStmt" and "e" in x and x["p"].get("k") == "Bind"
-                                                                                          and strip(x["e"]).get("k") == "Binary")]
-        sums = [(n, c, l) for n, c, l in inits if "3600" in c]
-        negs = [(strip(a["a"]).get("name"), names_canon(a["b"])) for a, _ in find_hir(fz["body"], lambda x: x.get("k") == "Assign")]
-        adds = [(strip(a["a"]).get("name"), names_canon(a["b"])) for a, _ in find_hir(fz["body"], lambda x: x.get("k") == "AssignOp" and x.get("op") in ("+", "+="))]
-        probs = []
-        if len(sums) != 1:
-            probs.append("expected one `3600 * hours + 60 * minutes` sum, found %s" % [c for _, c, _ in sums])
+                if a == ("sym", "m:offSign") and b[0] == "lit" and b[1] in ("-", "+", "\u2212"):
+                    neg_ = ("sym", "NEG") if b[1] != "+" else ("not", ("sym", "NEG"))
+                    return neg_ if last == "eq" else (("not", neg_) if neg_[0] != "not" else neg_[1])
+            return None
+        outs, ev = fold(F, name, [("sym", "captures")], hook)
+        key = "offset:parse"
+        if outs is None:
+            rep.undecided(r4, key, "%s has too many paths to fold" % name)
+            continue
+        probs, seen_some, seen_bound = [], 0, set()
+        for conds, v in outs:
+            if not (v[0] == "v" and v[1] == "Some" and v[2] and v[2][0][0] == "call" and (v[2][0][1] or "").endswith("FeelZone::new")):
+                continue
+            x = v[2][0][2][0] if v[2][0][2] else None
+            lin = ev.as_lin(x) if x is not None else None
+            if lin is None:
+                seen_some = -10 ** 6
+                continue
+            seen_some += 1
+            negs = [c[2] if c[3] == ("sym", "NEG") else (not c[2]) for c in conds if c[0] == "if" and len(c) > 3 and c[3] in (("sym", "NEG"), ("not", ("sym", "NEG")))]
+            secs = [c[1] for c in conds if c[0] == "secs"]
+            sg = -1 if (negs and negs[-1]) else 1
+            want = {"h": 3600 * sg, "m": 60 * sg}
+            if secs and secs[-1]:
+                want["s"] = sg
+            if lin[0] != want or lin[1] != 0:
+                got = " + ".join("%d*%s" % (c, n) for n, c in sorted(lin[0].items())) + (" + %d" % lin[1] if lin[1] else "")
+                probs.append("for a %s offset %s seconds the value is %s, expected %s(3600*h + 60*m%s)" % ("negative" if sg < 0 else "positive", "with" if "s" in want else "without", got,
+                                                                                                            "-" if sg < 0 else "", " + s" if "s" in want else ""))
+            # the bound on the hours under which this value is returned
+            bound = None
+            for c in conds:
+                if c[0] == "if" and len(c) > 3 and c[3][0] == "cmp" and ("sym", "h") in (c[3][2], c[3][3]):
+                    op, a, b, truth = c[3][1], c[3][2], c[3][3], c[2]
+                    if a == ("sym", "h") and b[0] == "lit":        # h op K
+                        k = b[1]
+                        ub = {("<", True): k - 1, ("<=", True): k}.get((op, truth))
+                    elif b == ("sym", "h") and a[0] == "lit":      # K op h
+                        k = a[1]
+                        ub = {("<", False): k, ("<=", False): k - 1}.get((op, truth))
+                    else:
+                        ub = None
+                    if ub is not None:
+                        bound = ub if bound is None else min(bound, ub)
+            seen_bound.add(bound)
+        if seen_some < 0:
+            rep.undecided(r4, key, "%s: the offset handed to FeelZone::new does not fold to a linear form of hours / minutes / seconds" % name)
+        elif seen_some == 0:
+            rep.undecided(r4, key, "%s: no path that returns Some(FeelZone::new(..)) was folded" % name)
         else:
-            var, c, _ = sums[0]
-            m = re.match(r"^\(\((3600\*(\w+)|(\w+)\*3600)\)\+\((60\*(\w+)|(\w+)\*60)\)\)$", c) or re.match(r"^\(\((60\*(\w+)|(\w+)\*60)\)\+\((3600\*(\w+)|(\w+)\*3600)\)\)$", c)
-            if not m:
-                probs.append("the offset is computed as %s, expected 3600*hours + 60*minutes (the sign must not be folded into one of the products)" % c)
-            if (var, "(-%s)" % var) not in negs:
-                probs.append("the negative sign is not applied to the whole offset (`%s = -%s` missing)" % (var, var))
-            if not any(a == var for a, _ in adds) and "seconds" not in c:
-                probs.append("offset seconds are not added")
-        if probs:
-            rep.violation(r4, "offset:parse", "; ".join(probs), "%s:%s" % (fz["file"], fz["line"]))
-        else:
-            rep.ok(r4, "offset:parse", "3600*hours + 60*minutes (+ seconds), negated as a whole")
-    fd = [h2 for n2, h2 in F.hir.items() if n2.startswith("<" + T + "zone::FeelZone as core::fmt::Display>::fmt")]
+            if seen_bound != {14}:
+                probs.append("offsets are accepted for hours up to %s (expected: more than 14 hours are rejected)" % sorted("unbounded" if b is None else b for b in seen_bound))
+            if probs:
+                rep.violation(r4, key, "; ".join(sorted(set(probs))[:4]), "%s:%s" % (h["file"], h["line"]))
+            else:
+                rep.ok(r4, key, "%d returning paths: sign * (3600*h + 60*m [+ s]), hours <= 14" % seen_some)
+    # ---------------- R15.4: UTC offsets, printed
+    fd = [h2 for n2, h2 in F.hir.items() if n2.startswith("<" + T) and "FeelZone as core::fmt::Display>::fmt" in n2 and "{closure" not in n2]
     if not fd:
         rep.missing_anchor(r4, "Display for FeelZone")
     else:
         body = fd[0]["body"]
-        # minutes and seconds are taken from the magnitude: every `% 60` / `.rem(3600)` / `% 3600` operand chain starts from abs() / unsigned_abs()
-        rems = [x for x, _ in find_hir(body, lambda x: (x.get("k") == "Binary" and x.get("op") == "%") or (x.get("k") == "MethodCall" and x.get("method") in ("rem", "rem_euclid")))]
-        bad = [x for x in rems if not find_hir(x, lambda y: y.get("k") == "MethodCall" and y.get("method") in ("abs", "unsigned_abs"))]
+        inits = {}
+        for st, _ in find_hir(body, lambda x: x.get("k") == "LetStmt" and "e" in x and x["p"].get("k") == "Bind"):
+            inits.setdefault(st["p"]["name"], st["e"])
+
+        def leaves(e, depth=0):
+            """where the operand of a remainder comes from: 'abs' (a magnitude) or 'raw:<name>' (a pattern-bound / parameter value reached without abs)"""
+            e = strip(e)
+            k = e.get("k")
+            if k == "MethodCall" and e.get("method") in ("abs", "unsigned_abs", "wrapping_abs", "rem_euclid"):
+                return {"abs"}
+            if k == "Path" and e.get("res") == "local":
+                if e["name"] in inits and depth < 6:
+                    return leaves(inits[e["name"]], depth + 1)
+                return {"raw:" + e["name"]}
+            out = set()
+            for key in ("a", "b", "e", "recv"):
+                if isinstance(e.get(key), dict):
+                    out |= leaves(e[key], depth)
+            for a in e.get("args", []) or []:
+                out |= leaves(a, depth)
+            return out
+        rems = [x for x, _ in find_hir(body, lambda x: (x.get("k") == "Binary" and x.get("op") == "%") or (x.get("k") == "MethodCall" and x.get("method") in ("rem",)))]
+        bad = [x for x in rems if any(l.startswith("raw:") for l in leaves(x.get("a") or x.get("recv")))]
         if not rems:
-            rep.missing_anchor(r4, "minutes / seconds computation in Display for FeelZone")
+            rep.undecided(r4, "offset:print", "no remainder computation in Display for FeelZone")
         elif bad:
             rep.violation(r4, "offset:print", "the minutes / seconds of a UTC offset are computed from the signed offset (line %s): -03:30 prints as -03:-30, which is not a valid literal" % bad[0].get("l"),
                           "%s:%s" % (fd[0]["file"], bad[0].get("l")))
         else:
             rep.ok(r4, "offset:print", "%d remainder(s), all on the magnitude" % len(rems))
+
+
+# ======================================================================================================
+# R15.5: the component accessors of a duration are cut from one and the same total
+COMPONENTS = {
+    "dmntk_feel::temporal::ym_duration::FeelYearsAndMonthsDuration": ["years", "months"],
+    "dmntk_feel::temporal::dt_duration::FeelDaysAndTimeDuration": ["get_days", "get_hours", "get_minutes", "get_seconds"],
+}
+
+
+def components_rule(F, rep):
+    rid = rep.rule("R15.5", "the component accessors of a duration (years / months; days / hours / minutes / seconds) divide one and the same base - the signed total or its magnitude - so that the components are consistent with the total length")
+
+    def base(v, depth=0):
+        """the value the chain of divisions / remainders by constants starts from"""
+        while depth < 12 and isinstance(v, tuple) and v and v[0] == "bin" and v[1] in ("/", "%") and v[3][0] == "lit":
+            v = v[2]
+            depth += 1
+        return v
+    for ty, names in sorted(COMPONENTS.items()):
+        bases = {}
+        for n in names:
+            full = "%s::%s" % (ty, n)
+            if full not in F.hir:
+                continue
+            outs, ev = fold(F, full, [("sym", "self")])
+            v = single(outs)
+            if v is None:
+                continue
+            bases[n] = base(v)
+        key = "components:%s" % ty.split("::")[-1]
+        if len(bases) < 2:
+            rep.undecided(rid, key, "fewer than two component accessors of %s fold to a division chain" % ty)
+            continue
+        distinct = {}
+        for n, b in bases.items():
+            distinct.setdefault(repr(b), []).append(n)
+        if len(distinct) > 1:
+            desc = "; ".join("%s from %s" % ("/".join(ns), short_val(eval(r) if False else r)) for r, ns in sorted(distinct.items()))
+            rep.violation(rid, key, "the component accessors of %s are cut from different totals (%s): for negative durations the components no longer add up to the total" % (ty.split("::")[-1], desc[:300]),
+                          F.hir["%s::%s" % (ty, names[0])]["file"])
+        else:
+            rep.ok(rid, key, "%d accessors share the base %s" % (len(bases), short_val(list(distinct)[0])))
+
+
+def short_val(r):
+    r = str(r)
+    r = r.replace("('field', '0', ('sym', 'self'))", "self.0")
+    return r[:120]
+
+
+# ======================================================================================================
+# R15.6: ordering, difference and weekday of date-times are taken from UTC-resolved instants
+def instants_rule(F, rep):
+    rid = rep.rule("R15.6", "compare() / subtract() / weekday() answer only from the instants produced by date_time_offset(date, time, resolved offset): first operand first, no answer from local calendar fields; "
+                            "the weekday number is Monday-based (1..7)")
+    M = "dmntk_feel::temporal::"
+    need = [M + n for n in ("compare", "subtract", "weekday", "date_time_offset")]
+    if any(n not in F.hir for n in need):
+        rep.missing_anchor(rid, "temporal::compare / subtract / weekday / date_time_offset")
+        return
+
+    def hook(callee, args, st):
+        n = (callee or "").split("::")[-1]
+        if callee == M + "date_time_offset":
+            return ("v", "Some", [("inst", args)])
+        if n in ("get_local_offset", "get_zone_offset"):
+            return ("v", "Some", [("call", callee, args)])
+        return None
+
+    def insts(v, out):
+        if isinstance(v, tuple) and v and v[0] == "inst":
+            out.append(v)
+            return
+        if isinstance(v, (tuple, list)):
+            for x in v:
+                if isinstance(x, (tuple, list)):
+                    insts(x, out)
+
+    def owner(inst):
+        r = repr(inst)
+        return {"me" if "('sym', 'me')" in r else None, "other" if "('sym', 'other')" in r else None} - {None}
+    for fn, binary in (("compare", True), ("subtract", True), ("weekday", False)):
+        outs, ev = fold(F, M + fn, [("sym", "me"), ("sym", "other")][:2 if binary else 1], hook)
+        key = "instants:%s" % fn
+        if outs is None:
+            rep.undecided(rid, key, "%s has too many paths to fold" % fn)
+            continue
+        probs, n = [], 0
+        for conds, v in outs:
+            if v[0] == "v" and v[1] == "None":
+                continue
+            n += 1
+            found = []
+            insts(v, found)
+            if binary:
+                if len(found) != 2 or owner(found[0]) != {"me"} or owner(found[1]) != {"other"}:
+                    probs.append("a path answers %s, which is not built from the instant of the first operand followed by the instant of the second" % ev.short(v)[:160])
+                elif fn == "compare" and not (v[0] == "v" and v[1] == "Some" and v[2] and v[2][0][0] == "ord" and v[2][0][1][0] == "inst" and v[2][0][2][0] == "inst"):
+                    probs.append("a path answers %s instead of Some(instant(me).cmp(instant(other)))" % ev.short(v)[:160])
+            else:
+                if len(found) != 1 or owner(found[0]) != {"me"}:
+                    probs.append("a path answers %s, which is not taken from the operand's instant" % ev.short(v)[:160])
+                else:
+                    r = repr(v)
+                    if "number_from_monday" in r and "num_days" not in r and "number_from_sunday" not in r:
+                        pass
+                    elif "num_days_from_sunday" in r or "number_from_sunday" in r:
+                        probs.append("the weekday number is Sunday-based (%s): FEEL numbers Monday = 1 ... Sunday = 7" % ("num_days_from_sunday" if "num_days_from_sunday" in r else "number_from_sunday"))
+                    else:
+                        rep.undecided(rid, key + ":numbering", "the weekday number is computed as %s" % ev.short(v)[:160])
+        if probs:
+            rep.violation(rid, key, "temporal::%s: %s" % (fn, "; ".join(sorted(set(probs))[:3])), "%s:%s" % (F.hir[M + fn]["file"], F.hir[M + fn]["line"]))
+        elif not n:
+            rep.undecided(rid, key, "no answering path of %s was folded" % fn)
+        else:
+            rep.ok(rid, key, "%d answering path(s), all from date_time_offset instants" % n)
